@@ -81,7 +81,7 @@ Definition show_cache (c : option (list (cticket * file))) : bytes :=
   end.
 
 Definition show_fstate (s : fstate cticket) : bytes :=
-  paren [show_bytes (fs_t s); show_N (World.fs_time s); show_bool (fs_x s)].
+  paren [show_bytes (fs_t s); show_N (fs_mtime s); show_bool (fs_x s)].
 
 Definition show_hist_file (h : sf (history cticket)) : bytes :=
   match h with
@@ -100,7 +100,7 @@ Definition show_hist (h : option (list (cticket * sf (history cticket)))) : byte
    (that is all the shortcut ever asks); absolute times are not compared between model and code *)
 Definition show_table_entry (w : cworld) (e : bytes * fstate cticket) : bytes :=
   let fresh := match fget w (fst e) with
-               | Some f => show_bool (f_mtime f =? World.fs_time (snd e))
+               | Some f => show_bool (f_mtime f =? fs_mtime (snd e))
                | None => lit "-"
                end in
   paren [show_bytes (fst e); show_bytes (fs_t (snd e)); fresh; show_bool (fs_x (snd e))].
